@@ -8,54 +8,505 @@ From Mgr Require Import Gen.MgrDefs Model.Manager Proofs.ListLemmas Proofs.Hoare
 Import ListNotations.
 Open Scope Z_scope.
 
-Definition ALLT := ALL_MESSAGE_TYPES.
+Notation ALLT := ALL_MESSAGE_TYPES.
 
-Record reg_ok (X : list Z) (ms : list module) (sb : list (Z * list Z)) (lg : list Z) : Prop := {
+Record reg_ok (X : list Z) (ms : list module) (sb : list (Z * list Z)) (lg : list Z) (nu : Z) : Prop := {
   ro_sub : forall t c, In c (alookup t sb) ->
              m_reg (find_mod c ms) = true /\ m_closed (find_mod c ms) = false /\ In t (m_subs (find_mod c ms));
   ro_sorted : forall t, sorted (alookup t sb);
   ro_all : forall m, In m ms -> In ALLT (m_subs m) -> m_subs m = [ALLT];
-  ro_log : forall c, In c lg ->
-             m_reg (find_mod c ms) = true /\ m_closed (find_mod c ms) = false /\ m_logger (find_mod c ms) = true
+  (* a refused/failed module can linger in logger_modules after its removal (connect_module adds it
+     after nested logging may already have removed it); it is skipped because it is no longer registered *)
+  ro_log : forall c, In c lg -> m_reg (find_mod c ms) = true ->
+             m_closed (find_mod c ms) = false /\ m_logger (find_mod c ms) = true
              /\ m_connected (find_mod c ms) = true;
   ro_logsorted : sorted lg;
   ro_unreg : forall m, In m ms -> m_reg m = false -> m_closed m = true;
   ro_pos : forall m, In m ms -> 0 <= m_conn m;
-  ro_conn : forall m, In m ms -> m_connected m = true -> m_closed m = false;
-  ro_flight : forall m, In m ms -> m_reg m = true -> m_closed m = true -> In (m_conn m) X
+  ro_conn : forall m, In m ms -> m_reg m = true -> m_connected m = true -> m_closed m = false;
+  ro_flight : forall m, In m ms -> m_reg m = true -> m_closed m = true -> In (m_conn m) X;
+  ro_nodup : NoDup (map m_conn ms);
+  ro_bound : forall m, In m ms -> m_conn m <= nu;
+  ro_xreg : forall c, In c X -> m_reg (find_mod c ms) = true /\ m_closed (find_mod c ms) = true;
+  ro_xnodup : NoDup X;
+  ro_logbound : forall c, In c lg -> 0 <= c <= nu
 }.
 
-Definition RegInvX (X : list Z) (s : mstate) : Prop := reg_ok X (mods s) (subs s) (loggers s).
+Definition RegInvX (X : list Z) (s : mstate) : Prop := reg_ok X (mods s) (subs s) (loggers s) (next_uid s).
 Definition RegInv : mstate -> Prop := RegInvX [].
-
 (* weaker form that also holds at a crash in the middle of a removal *)
 Definition RegInvW (s : mstate) : Prop := exists X, RegInvX X s.
 
 Lemma RegInvX_W X s : RegInvX X s -> RegInvW s.
 Proof. intros H; exists X; exact H. Qed.
 
-Lemma reg_ok_weaken X Y ms sb lg : reg_ok X ms sb lg -> (forall c, In c X -> In c Y) -> reg_ok Y ms sb lg.
-Proof. intros [] H. constructor; auto. Qed.
 
-(* ---------- module-table facts used below ---------- *)
+
+(* ---------- module-table facts ---------- *)
 
 Lemma In_upd_mod c f l m' : In m' (upd_mod c f l) ->
-  (In m' l /\ (m_conn m' <> c \/ True)) \/ (exists m, In m l /\ m_conn m = c /\ m' = f m).
+  In m' l \/ (exists m, In m l /\ m_conn m = c /\ m' = f m).
 Proof.
   induction l as [|m r IH]; simpl; [tauto|].
   destruct (m_conn m =? c) eqn:E; simpl.
   - intros [<-|H]; [right; exists m; split; [left; reflexivity|split; [apply Z.eqb_eq; exact E|reflexivity]]|].
-    left. split; [right; exact H|right; exact I].
-  - intros [<-|H]; [left; split; [left; reflexivity|right; exact I]|].
-    destruct (IH H) as [[H1 H2]|(m0 & H1 & H2 & H3)]; [left; split; [right; exact H1|exact H2]|].
+    left. right. exact H.
+  - intros [<-|H]; [left; left; reflexivity|].
+    destruct (IH H) as [H1|(m0 & H1 & H2 & H3)]; [left; right; exact H1|].
     right. exists m0. split; [right; exact H1|split; assumption].
 Qed.
 
-Lemma find_mod_app c l x : m_conn (find_mod c l) = c -> find_mod c (l ++ [x]) = find_mod c l.
+Lemma find_mod_app_found c l x : m_conn (find_mod c l) = c -> 0 <= c -> find_mod c (l ++ [x]) = find_mod c l.
 Proof.
-  induction l as [|m r IH]; simpl.
-  - intros H. change (m_conn dummy_module) with (-1) in H. subst c.
-    destruct (m_conn x =? -1); [|reflexivity]. (* a module with conn -1 never exists; handled by caller *)
-    admit.
+  intros H Hc. induction l as [|m r IH]; cbn [app find_mod] in *.
+  - change (m_conn dummy_module) with (-1) in H. lia.
   - destruct (m_conn m =? c); auto.
-Admitted.
+Qed.
+
+Lemma find_mod_app_other c l x : m_conn x <> c -> find_mod c (l ++ [x]) = find_mod c l.
+Proof.
+  intros H. induction l as [|m r IH]; cbn [app find_mod].
+  - destruct (m_conn x =? c) eqn:E; [apply Z.eqb_eq in E; congruence|reflexivity].
+  - destruct (m_conn m =? c); auto.
+Qed.
+
+Lemma find_mod_conn_of_open c l : m_closed (find_mod c l) = false -> m_conn (find_mod c l) = c.
+Proof. intros H. apply find_mod_open_In in H. tauto. Qed.
+
+Lemma find_mod_conn_of_reg c l : m_reg (find_mod c l) = true -> m_conn (find_mod c l) = c.
+Proof. intros H. apply find_mod_reg_In in H. tauto. Qed.
+
+(* what happens to a lookup when module c is updated with a conn-preserving f *)
+Lemma find_upd c c' f l : conn_pres f -> 0 <= c ->
+  find_mod c' (upd_mod c f l) =
+    if c' =? c then (if m_conn (find_mod c l) =? c then f (find_mod c l) else dummy_module)
+    else find_mod c' l.
+Proof.
+  intros Hf Hc. destruct (c' =? c) eqn:E.
+  - apply Z.eqb_eq in E. subst. apply find_upd_same; auto.
+  - apply Z.eqb_neq in E. apply find_upd_other; auto.
+Qed.
+
+(* ---------- leaf: update of one module that keeps subs/reg/closed/connected (and logger unless
+   the module is in no logger list) ---------- *)
+
+Definition keeps (f : module -> module) : Prop :=
+  conn_pres f /\ (forall m, m_subs (f m) = m_subs m) /\ (forall m, m_reg (f m) = m_reg m) /\
+  (forall m, m_closed (f m) = m_closed m) /\ (forall m, m_connected (f m) = m_connected m).
+
+Lemma map_conn_upd c f l : conn_pres f -> map m_conn (upd_mod c f l) = map m_conn l.
+Proof.
+  intros Hf. induction l as [|m r IH]; simpl; [reflexivity|].
+  destruct (m_conn m =? c); simpl; [rewrite Hf; reflexivity|rewrite IH; reflexivity].
+Qed.
+
+Lemma reg_ok_upd X ms sb lg nu c f :
+  reg_ok X ms sb lg nu -> keeps f -> 0 <= c ->
+  ((forall m, m_logger (f m) = m_logger m) \/ ~ In c lg) ->
+  reg_ok X (upd_mod c f ms) sb lg nu.
+Proof.
+  intros R (Kc & Ks & Kr & Kcl & Kcn) Hc Hl. destruct R as [R1 R2 R3 R4 R5 R6 R7 R8 R9 R10 R11 R12 R13 R14].
+  assert (Hfind : forall c', let m' := find_mod c' (upd_mod c f ms) in let m := find_mod c' ms in
+            m_reg m' = m_reg m /\ m_closed m' = m_closed m /\ m_subs m' = m_subs m /\
+            m_connected m' = m_connected m /\ ((forall m, m_logger (f m) = m_logger m) \/ c' <> c -> m_logger m' = m_logger m)).
+  { intros c'. cbv zeta. rewrite (find_upd c c' f ms Kc Hc).
+    destruct (c' =? c) eqn:E.
+    - apply Z.eqb_eq in E. subst c'.
+      destruct (m_conn (find_mod c ms) =? c) eqn:E2.
+      + rewrite Kr, Kcl, Ks, Kcn. repeat split; auto. intros [H|H]; [apply H|congruence].
+      + destruct (find_mod_cases c ms) as [Hd|[_ Hd]]; [rewrite Hd; repeat split; auto|].
+        rewrite Hd, Z.eqb_refl in E2. discriminate.
+    - repeat split; auto. }
+  constructor.
+  - intros t c' Hin. destruct (R1 t c' Hin) as (A1 & A2 & A3). destruct (Hfind c') as (F1 & F2 & F3 & _).
+    rewrite F1, F2, F3. auto.
+  - exact R2.
+  - intros m' Hin Hall. apply In_upd_mod in Hin. destruct Hin as [Hin|(m & Hin & _ & ->)]; [auto|].
+    rewrite Ks in *. auto.
+  - intros c' Hin Hreg. destruct (Hfind c') as (F1 & F2 & _ & F4 & F5). rewrite F1 in Hreg.
+    destruct (R4 c' Hin Hreg) as (A2 & A3 & A4).
+    rewrite F2, F4. repeat split; auto. rewrite F5; auto.
+    destruct Hl as [Hl|Hl]; [left; exact Hl|right; intro; subst; contradiction].
+  - exact R5.
+  - intros m' Hin Hr. apply In_upd_mod in Hin. destruct Hin as [Hin|(m & Hin & _ & ->)]; [auto|].
+    rewrite Kr in Hr. rewrite Kcl. auto.
+  - intros m' Hin. apply In_upd_mod in Hin. destruct Hin as [Hin|(m & Hin & _ & ->)]; [auto|]. rewrite Kc. auto.
+  - intros m' Hin Hr Hcn. apply In_upd_mod in Hin. destruct Hin as [Hin|(m & Hin & _ & ->)]; [auto|].
+    rewrite Kr in Hr. rewrite Kcn in Hcn. rewrite Kcl. auto.
+  - intros m' Hin Hr Hcl. apply In_upd_mod in Hin. destruct Hin as [Hin|(m & Hin & _ & ->)]; [auto|].
+    rewrite Kr in Hr. rewrite Kcl in Hcl. rewrite Kc. auto.
+  - rewrite map_conn_upd; auto.
+  - intros m' Hin. apply In_upd_mod in Hin. destruct Hin as [Hin|(m & Hin & _ & ->)]; [auto|]. rewrite Kc. auto.
+  - intros c' Hin. destruct (R12 c' Hin) as [A1 A2]. destruct (Hfind c') as (F1 & F2 & _). rewrite F1, F2. auto.
+  - exact R13.
+  - exact R14.
+Qed.
+
+Lemma keeps_count n : keeps (fun m => mm_count m n).
+Proof. repeat split. Qed.
+Lemma keeps_drops g : keeps (fun m => mm_drops m (g m)).
+Proof. repeat split. Qed.
+Lemma keeps_pid n : keeps (fun m => mm_pid m n).
+Proof. repeat split. Qed.
+Lemma keeps_name n : keeps (fun m => mm_name m n).
+Proof. repeat split. Qed.
+Lemma keeps_modid n : keeps (fun m => mm_modid m n).
+Proof. repeat split. Qed.
+Lemma keeps_ident a b u : keeps (fun m => mm_ident m a b (m_name m) u).
+Proof. repeat split. Qed.
+Lemma keeps_flags a b : keeps (fun m => mm_flags m a b).
+Proof. repeat split. Qed.
+
+(* ---------- leaves of remove_module ---------- *)
+
+Lemma reg_ok_drop_subs X ms sb lg nu c ts :
+  reg_ok X ms sb lg nu -> reg_ok X ms (drop_subs c ts sb) lg nu.
+Proof.
+  intros [R1 R2 R3 R4 R5 R6 R7 R8 R9 R10 R11 R12 R13 R14]. constructor; auto.
+  - intros t c' Hin. rewrite alookup_drop_subs in Hin. destruct (zmem t ts); [apply zremove_In in Hin; destruct Hin|]; eauto.
+  - intros t. rewrite alookup_drop_subs. destruct (zmem t ts); [apply sorted_zremove|]; auto.
+Qed.
+
+Lemma drop_subs_gone ms sb lg nu X c :
+  reg_ok X ms sb lg nu -> forall t, ~ In c (alookup t (drop_subs c (m_subs (find_mod c ms)) sb)).
+Proof.
+  intros R t Hin. rewrite alookup_drop_subs in Hin.
+  destruct (zmem t (m_subs (find_mod c ms))) eqn:E.
+  - apply zremove_In in Hin. destruct Hin as [Hne _]. congruence.
+  - apply zmem_false in E. apply E. destruct (ro_sub _ _ _ _ _ R t c Hin) as (_ & _ & H). exact H.
+Qed.
+
+Lemma reg_ok_drop_logger X ms sb lg nu c : reg_ok X ms sb lg nu -> reg_ok X ms sb (zremove c lg) nu.
+Proof.
+  intros [R1 R2 R3 R4 R5 R6 R7 R8 R9 R10 R11 R12 R13 R14]. constructor; auto.
+  - intros c' Hin. apply zremove_In in Hin. destruct Hin. auto.
+  - apply sorted_zremove; auto.
+  - intros c' Hin. apply zremove_In in Hin. destruct Hin. auto.
+Qed.
+
+Lemma In_find_mod_nodup m ms : In m ms -> NoDup (map m_conn ms) -> find_mod (m_conn m) ms = m.
+Proof.
+  induction ms as [|x r IH]; simpl; intros Hin Hnd; [contradiction|].
+  inversion Hnd as [|? ? Hx Hr]; subst.
+  destruct Hin as [->|Hin]; [rewrite Z.eqb_refl; reflexivity|].
+  destruct (m_conn x =? m_conn m) eqn:E; [|auto].
+  apply Z.eqb_eq in E. exfalso. apply Hx. rewrite E. apply in_map. exact Hin.
+Qed.
+
+Lemma reg_ok_close X ms sb lg nu c :
+  reg_ok X ms sb lg nu -> (forall t, ~ In c (alookup t sb)) -> ~ In c lg -> 0 <= c ->
+  m_reg (find_mod c ms) = true -> m_closed (find_mod c ms) = false ->
+  reg_ok (c :: X) (upd_mod c mm_close ms) sb lg nu.
+Proof.
+  intros [R1 R2 R3 R4 R5 R6 R7 R8 R9 R10 R11 R12 R13 R14] Hs Hl Hc Hreg Hopen.
+  assert (Kc : conn_pres mm_close) by (intro; reflexivity).
+  constructor.
+  - intros t c' Hin. assert (c' <> c) by (intro; subst; exact (Hs t Hin)).
+    rewrite find_upd_other; auto.
+  - exact R2.
+  - intros m' Hin. apply In_upd_mod in Hin. destruct Hin as [Hin|(m & Hin & _ & ->)]; auto; apply (R3 m Hin).
+  - intros c' Hin. assert (c' <> c) by (intro; subst; contradiction). rewrite find_upd_other; auto.
+  - exact R5.
+  - intros m' Hin Hr. apply In_upd_mod in Hin. destruct Hin as [Hin|(m & Hin & _ & ->)]; auto.
+  - intros m' Hin. apply In_upd_mod in Hin. destruct Hin as [Hin|(m & Hin & _ & ->)]; auto; apply (R7 m Hin).
+  - intros m' Hin Hr Hcn. apply In_upd_mod in Hin. destruct Hin as [Hin|(m & Hin & _ & ->)]; auto; discriminate.
+  - intros m' Hin Hr Hcl. apply In_upd_mod in Hin. destruct Hin as [Hin|(m & Hin & Hmc & ->)].
+    + right. auto.
+    + left. symmetry. exact Hmc.
+  - rewrite map_conn_upd; auto.
+  - intros m' Hin. apply In_upd_mod in Hin. destruct Hin as [Hin|(m & Hin & _ & ->)]; auto; apply (R11 m Hin).
+  - intros c' [<-|Hin].
+    + rewrite find_upd_same; auto. rewrite (find_mod_conn_of_reg _ _ Hreg), Z.eqb_refl. simpl. auto.
+    + destruct (R12 c' Hin) as [A1 A2]. assert (c' <> c) by (intro; subst; congruence). rewrite find_upd_other; auto.
+  - constructor; [|exact R13]. intro Hin. destruct (R12 c Hin). congruence.
+  - exact R14.
+Qed.
+
+Lemma In_upd_mod_inv c f l m' : NoDup (map m_conn l) -> conn_pres f -> In m' (upd_mod c f l) ->
+  (In m' l /\ m_conn m' <> c) \/ (exists m, In m l /\ m_conn m = c /\ m' = f m).
+Proof.
+  intros Hnd Hf. induction l as [|m r IH]; simpl; [tauto|].
+  inversion Hnd as [|? ? Hx Hr]; subst.
+  destruct (m_conn m =? c) eqn:E; simpl.
+  - apply Z.eqb_eq in E. intros [<-|H].
+    + right. exists m. auto.
+    + left. split; [right; exact H|]. intro Hc. apply Hx. rewrite E, <- Hc. apply in_map. exact H.
+  - apply Z.eqb_neq in E. intros [<-|H]; [left; split; [left; reflexivity|exact E]|].
+    destruct (IH Hr H) as [[H1 H2]|(m0 & H1 & H2 & H3)]; [left; split; [right; exact H1|exact H2]|].
+    right. exists m0. auto.
+Qed.
+
+Lemma reg_ok_unreg X ms sb lg nu c :
+  reg_ok (c :: X) ms sb lg nu -> m_closed (find_mod c ms) = true -> 0 <= c ->
+  reg_ok X (upd_mod c mm_unreg ms) sb lg nu.
+Proof.
+  intros [R1 R2 R3 R4 R5 R6 R7 R8 R9 R10 R11 R12 R13 R14] Hcl Hc.
+  assert (Kc : conn_pres mm_unreg) by (intro; reflexivity).
+  assert (Hs : forall t, ~ In c (alookup t sb)).
+  { intros t Hin. destruct (R1 t c Hin) as (_ & H & _). congruence. }
+  assert (Hl : ~ In c lg).
+  { intros Hin. destruct (R12 c (or_introl eq_refl)) as [Hreg0 _]. destruct (R4 c Hin Hreg0) as (H & _). congruence. }
+  constructor.
+  - intros t c' Hin. assert (c' <> c) by (intro; subst; exact (Hs t Hin)). rewrite find_upd_other; auto.
+  - exact R2.
+  - intros m' Hin. apply In_upd_mod in Hin. destruct Hin as [Hin|(m & Hin & _ & ->)]; auto; apply (R3 m Hin).
+  - intros c' Hin. assert (c' <> c) by (intro; subst; contradiction). rewrite find_upd_other; auto.
+  - exact R5.
+  - intros m' Hin Hr. apply In_upd_mod in Hin. destruct Hin as [Hin|(m & Hin & Hmc & ->)]; auto.
+    simpl. rewrite <- Hmc in Hcl. rewrite (In_find_mod_nodup m ms Hin R10) in Hcl. exact Hcl.
+  - intros m' Hin. apply In_upd_mod in Hin. destruct Hin as [Hin|(m & Hin & _ & ->)]; auto; apply (R7 m Hin).
+  - intros m' Hin Hr Hcn. apply In_upd_mod in Hin. destruct Hin as [Hin|(m & Hin & _ & ->)]; auto; simpl in Hr; discriminate.
+  - intros m' Hin Hr Hcl'. apply (In_upd_mod_inv c mm_unreg ms m' R10 Kc) in Hin.
+    destruct Hin as [[Hin Hne]|(m & Hin & Hmc & ->)]; [|discriminate].
+    destruct (R9 m' Hin Hr Hcl') as [E|E]; [congruence|exact E].
+  - rewrite map_conn_upd; auto.
+  - intros m' Hin. apply In_upd_mod in Hin. destruct Hin as [Hin|(m & Hin & _ & ->)]; auto; apply (R11 m Hin).
+  - intros c' Hin. inversion R13 as [|? ? Hx Hr]; subst. assert (c' <> c) by (intro; subst; contradiction).
+    rewrite find_upd_other; auto. apply R12. right. exact Hin.
+  - inversion R13; auto.
+  - exact R14.
+Qed.
+
+(* ---------- leaves of add/remove subscription ---------- *)
+
+Lemma reg_ok_sub_one X ms sb lg nu c t :
+  reg_ok X ms sb lg nu -> 0 <= c -> m_reg (find_mod c ms) = true -> m_closed (find_mod c ms) = false ->
+  ~ In ALLT (m_subs (find_mod c ms)) -> t <> ALLT ->
+  reg_ok X (upd_mod c (fun m => mm_subs m (zinsert t (m_subs m))) ms) (aupdate t (zinsert c) sb) lg nu.
+Proof.
+  intros [R1 R2 R3 R4 R5 R6 R7 R8 R9 R10 R11 R12 R13 R14] Hc Hreg Hop Hnall Hne.
+  set (f := fun m => mm_subs m (zinsert t (m_subs m))).
+  assert (Kc : conn_pres f) by (intro; reflexivity).
+  assert (Hcc : m_conn (find_mod c ms) = c) by (apply find_mod_conn_of_reg; exact Hreg).
+  assert (Hfc : find_mod c (upd_mod c f ms) = f (find_mod c ms)).
+  { rewrite find_upd_same; auto. rewrite Hcc, Z.eqb_refl. reflexivity. }
+  constructor.
+  - intros t' c' Hin. rewrite alookup_aupdate in Hin.
+    destruct (Z.eq_dec c' c) as [->|Hcn].
+    + rewrite Hfc. simpl. repeat split; auto.
+      destruct (t' =? t) eqn:E.
+      * apply Z.eqb_eq in E. subst. apply zinsert_In. left; reflexivity.
+      * apply zinsert_In. right. destruct (R1 t' c Hin) as (_ & _ & H). exact H.
+    + rewrite find_upd_other; auto. destruct (t' =? t) eqn:E; [|eauto].
+      apply zinsert_In in Hin. destruct Hin as [->|Hin]; [congruence|].
+      apply Z.eqb_eq in E. subst. eauto.
+  - intros t'. rewrite alookup_aupdate. destruct (t' =? t); [apply sorted_zinsert|]; auto.
+  - intros m' Hin Hall. apply In_upd_mod in Hin. destruct Hin as [Hin|(m & Hin & Hmc & ->)]; auto.
+    simpl in *. exfalso. apply zinsert_In in Hall. destruct Hall as [Hall|Hall]; [congruence|].
+    apply Hnall. rewrite <- Hmc. rewrite (In_find_mod_nodup m ms Hin R10). exact Hall.
+  - intros c' Hin. destruct (Z.eq_dec c' c) as [->|Hcn].
+    + rewrite Hfc. simpl. auto.
+    + rewrite find_upd_other; auto.
+  - exact R5.
+  - intros m' Hin Hr. apply In_upd_mod in Hin. destruct Hin as [Hin|(m & Hin & _ & ->)]; auto; apply (R6 m Hin Hr).
+  - intros m' Hin. apply In_upd_mod in Hin. destruct Hin as [Hin|(m & Hin & _ & ->)]; auto; apply (R7 m Hin).
+  - intros m' Hin Hr Hcn. apply In_upd_mod in Hin. destruct Hin as [Hin|(m & Hin & _ & ->)]; auto; apply (R8 m Hin Hr Hcn).
+  - intros m' Hin Hr Hcl. apply In_upd_mod in Hin. destruct Hin as [Hin|(m & Hin & _ & ->)]; auto; apply (R9 m Hin Hr Hcl).
+  - rewrite map_conn_upd; auto.
+  - intros m' Hin. apply In_upd_mod in Hin. destruct Hin as [Hin|(m & Hin & _ & ->)]; auto; apply (R11 m Hin).
+  - intros c' Hin. destruct (R12 c' Hin) as [A1 A2]. assert (c' <> c) by (intro; subst; congruence). rewrite find_upd_other; auto.
+  - exact R13.
+  - exact R14.
+Qed.
+
+Lemma reg_ok_aupdate_remove X ms sb lg nu c t :
+  reg_ok X ms sb lg nu -> reg_ok X ms (aupdate t (zremove c) sb) lg nu.
+Proof.
+  intros [R1 R2 R3 R4 R5 R6 R7 R8 R9 R10 R11 R12 R13 R14]. constructor; auto.
+  - intros t' c' Hin. rewrite alookup_aupdate in Hin. destruct (t' =? t) eqn:E; [|eauto].
+    apply Z.eqb_eq in E. subst. apply zremove_In in Hin. destruct Hin. eauto.
+  - intros t'. rewrite alookup_aupdate. destruct (t' =? t); [apply sorted_zremove|]; auto.
+Qed.
+
+(* module c appears in no subscriber list: its subs field can be replaced freely *)
+Lemma reg_ok_set_subs_absent X ms sb lg nu c l :
+  reg_ok X ms sb lg nu -> 0 <= c -> (forall t, ~ In c (alookup t sb)) ->
+  (In ALLT l -> l = [ALLT]) ->
+  reg_ok X (upd_mod c (fun m => mm_subs m l) ms) sb lg nu.
+Proof.
+  intros [R1 R2 R3 R4 R5 R6 R7 R8 R9 R10 R11 R12 R13 R14] Hc Habs Hl.
+  set (f := fun m => mm_subs m l).
+  assert (Kc : conn_pres f) by (intro; reflexivity).
+  assert (Hfind : forall c', let m' := find_mod c' (upd_mod c f ms) in let m := find_mod c' ms in
+            m_reg m' = m_reg m /\ m_closed m' = m_closed m /\ m_connected m' = m_connected m /\
+            m_logger m' = m_logger m /\ (c' <> c -> m_subs m' = m_subs m)).
+  { intros c'. cbv zeta. rewrite (find_upd c c' f ms Kc Hc). destruct (c' =? c) eqn:E.
+    - apply Z.eqb_eq in E. subst c'. destruct (m_conn (find_mod c ms) =? c) eqn:E2.
+      + simpl. repeat split; auto. congruence.
+      + destruct (find_mod_cases c ms) as [Hd|[_ Hd]]; [rewrite Hd; repeat split; auto|].
+        rewrite Hd, Z.eqb_refl in E2. discriminate.
+    - repeat split; auto. }
+  constructor.
+  - intros t c' Hin. assert (c' <> c) by (intro; subst; exact (Habs t Hin)).
+    destruct (R1 t c' Hin) as (A1 & A2 & A3). destruct (Hfind c') as (F1 & F2 & _ & _ & F5).
+    rewrite F1, F2, F5; auto.
+  - exact R2.
+  - intros m' Hin Hall. apply In_upd_mod in Hin. destruct Hin as [Hin|(m & Hin & _ & ->)]; auto.
+  - intros c' Hin Hreg. destruct (Hfind c') as (F1 & F2 & F3 & F4 & _). rewrite F1 in Hreg.
+    destruct (R4 c' Hin Hreg) as (A2 & A3 & A4). rewrite F2, F3, F4. auto.
+  - exact R5.
+  - intros m' Hin Hr. apply In_upd_mod in Hin. destruct Hin as [Hin|(m & Hin & _ & ->)]; auto; apply (R6 m Hin Hr).
+  - intros m' Hin. apply In_upd_mod in Hin. destruct Hin as [Hin|(m & Hin & _ & ->)]; auto; apply (R7 m Hin).
+  - intros m' Hin Hr Hcn. apply In_upd_mod in Hin. destruct Hin as [Hin|(m & Hin & _ & ->)]; auto; apply (R8 m Hin Hr Hcn).
+  - intros m' Hin Hr Hcl. apply In_upd_mod in Hin. destruct Hin as [Hin|(m & Hin & _ & ->)]; auto; apply (R9 m Hin Hr Hcl).
+  - rewrite map_conn_upd; auto.
+  - intros m' Hin. apply In_upd_mod in Hin. destruct Hin as [Hin|(m & Hin & _ & ->)]; auto; apply (R11 m Hin).
+  - intros c' Hin. destruct (R12 c' Hin) as [A1 A2]. destruct (Hfind c') as (F1 & F2 & _). rewrite F1, F2. auto.
+  - exact R13.
+  - exact R14.
+Qed.
+
+(* insert c into one list whose type its subs field contains *)
+Lemma reg_ok_list_add X ms sb lg nu c t :
+  reg_ok X ms sb lg nu -> m_reg (find_mod c ms) = true -> m_closed (find_mod c ms) = false ->
+  In t (m_subs (find_mod c ms)) -> reg_ok X ms (aupdate t (zinsert c) sb) lg nu.
+Proof.
+  intros [R1 R2 R3 R4 R5 R6 R7 R8 R9 R10 R11 R12 R13 R14] Hr Ho Hin. constructor; auto.
+  - intros t' c' H. rewrite alookup_aupdate in H. destruct (t' =? t) eqn:E; [|eauto].
+    apply Z.eqb_eq in E. subst. apply zinsert_In in H. destruct H as [->|H]; [auto|eauto].
+  - intros t'. rewrite alookup_aupdate. destruct (t' =? t); [apply sorted_zinsert|]; auto.
+Qed.
+
+Lemma reg_ok_unsub_one X ms sb lg nu c t :
+  reg_ok X ms sb lg nu -> 0 <= c -> ~ In ALLT (m_subs (find_mod c ms)) ->
+  reg_ok X (upd_mod c (fun m => mm_subs m (zremove t (m_subs m))) ms) (aupdate t (zremove c) sb) lg nu.
+Proof.
+  intros R Hc Hnall. pose proof (reg_ok_aupdate_remove X ms sb lg nu c t R) as R'.
+  destruct R' as [R1 R2 R3 R4 R5 R6 R7 R8 R9 R10 R11 R12 R13 R14].
+  set (f := fun m => mm_subs m (zremove t (m_subs m))).
+  assert (Kc : conn_pres f) by (intro; reflexivity).
+  constructor; auto.
+  - intros t' c' Hin. destruct (R1 t' c' Hin) as (A1 & A2 & A3).
+    rewrite (find_upd c c' f ms Kc Hc). destruct (c' =? c) eqn:E.
+    + apply Z.eqb_eq in E. subst c'. rewrite (find_mod_conn_of_reg _ _ A1), Z.eqb_refl. simpl.
+      repeat split; auto. apply zremove_In. split; [|exact A3].
+      intro; subst t'. rewrite alookup_aupdate_same in Hin. apply zremove_In in Hin. destruct Hin; congruence.
+    + auto.
+  - intros m' Hin Hall. apply In_upd_mod in Hin. destruct Hin as [Hin|(m & Hin & Hmc & ->)]; auto.
+    simpl in Hall. apply zremove_In in Hall. destruct Hall as [_ Hall]. exfalso. apply Hnall.
+    rewrite <- Hmc, (In_find_mod_nodup m ms Hin R10). exact Hall.
+  - intros c' Hin. rewrite (find_upd c c' f ms Kc Hc). destruct (c' =? c) eqn:E; [|apply R4; exact Hin].
+    apply Z.eqb_eq in E. subst c'. destruct (m_conn (find_mod c ms) =? c) eqn:E2; [|simpl; discriminate].
+    simpl. intros Hreg. apply (R4 c Hin Hreg).
+  - intros m' Hin Hr. apply In_upd_mod in Hin. destruct Hin as [Hin|(m & Hin & _ & ->)]; auto; apply (R6 m Hin Hr).
+  - intros m' Hin. apply In_upd_mod in Hin. destruct Hin as [Hin|(m & Hin & _ & ->)]; auto; apply (R7 m Hin).
+  - intros m' Hin Hr Hcn. apply In_upd_mod in Hin. destruct Hin as [Hin|(m & Hin & _ & ->)]; auto; apply (R8 m Hin Hr Hcn).
+  - intros m' Hin Hr Hcl. apply In_upd_mod in Hin. destruct Hin as [Hin|(m & Hin & _ & ->)]; auto; apply (R9 m Hin Hr Hcl).
+  - rewrite map_conn_upd; auto.
+  - intros m' Hin. apply In_upd_mod in Hin. destruct Hin as [Hin|(m & Hin & _ & ->)]; auto; apply (R11 m Hin).
+  - intros c' Hin. destruct (R12 c' Hin) as [A1 A2]. rewrite (find_upd c c' f ms Kc Hc). destruct (c' =? c) eqn:E; [|auto].
+    apply Z.eqb_eq in E. subst c'. rewrite (find_mod_conn_of_reg _ _ A1), Z.eqb_refl. simpl. auto.
+Qed.
+
+Lemma NoDup_snoc (l : list Z) x : NoDup l -> ~ In x l -> NoDup (l ++ [x]).
+Proof.
+  induction l as [|y r IH]; simpl; intros Hnd Hx; [constructor; [tauto|constructor]|].
+  inversion Hnd as [|? ? Hy Hr]; subst. constructor.
+  - intro Hin. apply in_app_or in Hin. destruct Hin as [Hin|[->|[]]]; [contradiction|apply Hx; left; reflexivity].
+  - apply IH; auto.
+Qed.
+
+Lemma reg_ok_accept X ms sb lg nu :
+  reg_ok X ms sb lg nu -> 0 <= nu + 1 -> reg_ok X (ms ++ [new_module (nu + 1)]) sb lg (nu + 1).
+Proof.
+  intros [R1 R2 R3 R4 R5 R6 R7 R8 R9 R10 R11 R12 R13 R14] Hnu.
+  assert (Hf : forall c, m_reg (find_mod c ms) = true -> find_mod c (ms ++ [new_module (nu + 1)]) = find_mod c ms).
+  { intros c Hr. pose proof (find_mod_reg_In c ms Hr) as [Hin Hc].
+    apply find_mod_app_found; auto. rewrite <- Hc. apply R7; exact Hin. }
+  assert (Hsplit : forall m, In m (ms ++ [new_module (nu + 1)]) -> In m ms \/ m = new_module (nu + 1)).
+  { intros m Hin. apply in_app_or in Hin. destruct Hin as [Hin|[<-|[]]]; auto. }
+  constructor.
+  - intros t c Hin. destruct (R1 t c Hin) as (A1 & A2 & A3). rewrite (Hf c A1). auto.
+  - exact R2.
+  - intros m Hin Hall. destruct (Hsplit m Hin) as [H| ->]; [auto|]. simpl in Hall. contradiction.
+  - intros c Hin Hreg. pose proof (R14 c Hin) as Hb. rewrite find_mod_app_other in * by (simpl; lia). apply R4; auto.
+  - exact R5.
+  - intros m Hin Hr. destruct (Hsplit m Hin) as [H| ->]; [auto|]. simpl in Hr. discriminate.
+  - intros m Hin. destruct (Hsplit m Hin) as [H| ->]; [auto|]. simpl. exact Hnu.
+  - intros m Hin Hc. destruct (Hsplit m Hin) as [H| ->]; [auto|]. simpl in Hc. discriminate.
+  - intros m Hin Hr Hc. destruct (Hsplit m Hin) as [H| ->]; [auto|]. simpl in Hc. discriminate.
+  - rewrite map_app. simpl. apply NoDup_snoc; auto.
+    intros Hin. apply in_map_iff in Hin. destruct Hin as (m & Hm & Hin). specialize (R11 m Hin). lia.
+  - intros m Hin. destruct (Hsplit m Hin) as [H| ->]; [specialize (R11 m H); lia|simpl; lia].
+  - intros c Hin. destruct (R12 c Hin) as [A1 A2]. rewrite (Hf c A1). auto.
+  - exact R13.
+  - intros c Hin. specialize (R14 c Hin). lia.
+Qed.
+
+(* ---------- wrappers without the 0 <= c side condition ---------- *)
+
+Lemma upd_mod_absent c f l : (forall m, In m l -> m_conn m <> c) -> upd_mod c f l = l.
+Proof.
+  induction l as [|m r IH]; intros H; simpl; [reflexivity|].
+  destruct (m_conn m =? c) eqn:E; [apply Z.eqb_eq in E; exfalso; apply (H m); [left; reflexivity|exact E]|].
+  rewrite IH; auto. intros m' Hm'. apply H. right. exact Hm'.
+Qed.
+
+Lemma reg_ok_upd' X ms sb lg nu c f :
+  reg_ok X ms sb lg nu -> keeps f ->
+  ((forall m, m_logger (f m) = m_logger m) \/ ~ In c lg) ->
+  reg_ok X (upd_mod c f ms) sb lg nu.
+Proof.
+  intros R K Hl. destruct (Z_le_gt_dec 0 c) as [Hc|Hc]; [apply reg_ok_upd; auto|].
+  rewrite upd_mod_absent; auto. intros m Hin E. pose proof (ro_pos _ _ _ _ _ R m Hin). lia.
+Qed.
+
+Lemma reg_ok_logger_add X ms sb lg nu c :
+  reg_ok X ms sb lg nu -> m_reg (find_mod c ms) = true ->
+  m_closed (find_mod c ms) = false -> m_logger (find_mod c ms) = true -> m_connected (find_mod c ms) = true ->
+  reg_ok X ms sb (zinsert c lg) nu.
+Proof.
+  intros [R1 R2 R3 R4 R5 R6 R7 R8 R9 R10 R11 R12 R13 R14] Hr Hc Hl Hcn. constructor; auto.
+  - intros c' Hin Hreg. apply zinsert_In in Hin. destruct Hin as [->|Hin]; auto.
+  - apply sorted_zinsert; auto.
+  - intros c' Hin. apply zinsert_In in Hin. destruct Hin as [->|Hin]; auto.
+    pose proof (find_mod_reg_In c ms Hr) as [Hi Hcc]. pose proof (R7 _ Hi). pose proof (R11 _ Hi). lia.
+Qed.
+
+(* a dead (unregistered) module may still be added to the logger set: it stays inert *)
+Lemma reg_ok_logger_add_dead X ms sb lg nu c :
+  reg_ok X ms sb lg nu -> m_reg (find_mod c ms) = false -> 0 <= c <= nu ->
+  reg_ok X ms sb (zinsert c lg) nu.
+Proof.
+  intros [R1 R2 R3 R4 R5 R6 R7 R8 R9 R10 R11 R12 R13 R14] Hr Hb. constructor; auto.
+  - intros c' Hin Hreg. apply zinsert_In in Hin. destruct Hin as [->|Hin]; [congruence|auto].
+  - apply sorted_zinsert; auto.
+  - intros c' Hin. apply zinsert_In in Hin. destruct Hin as [->|Hin]; auto.
+Qed.
+
+Lemma reg_ok_connected X ms sb lg nu c :
+  reg_ok X ms sb lg nu -> (m_reg (find_mod c ms) = true -> m_closed (find_mod c ms) = false) ->
+  reg_ok X (upd_mod c mm_connected ms) sb lg nu.
+Proof.
+  intros R Hopen. destruct (Z_le_gt_dec 0 c) as [Hc|Hc].
+  2:{ rewrite upd_mod_absent; auto. intros m Hin E. pose proof (ro_pos _ _ _ _ _ R m Hin). lia. }
+  destruct R as [R1 R2 R3 R4 R5 R6 R7 R8 R9 R10 R11 R12 R13 R14].
+  assert (Kc : conn_pres mm_connected) by (intro; reflexivity).
+  assert (Hfind : forall c', let m' := find_mod c' (upd_mod c mm_connected ms) in let m := find_mod c' ms in
+            m_reg m' = m_reg m /\ m_closed m' = m_closed m /\ m_subs m' = m_subs m /\ m_logger m' = m_logger m /\
+            (m_connected m = true -> m_connected m' = true)).
+  { intros c'. cbv zeta. rewrite (find_upd c c' mm_connected ms Kc Hc). destruct (c' =? c) eqn:E.
+    - apply Z.eqb_eq in E. subst c'. destruct (m_conn (find_mod c ms) =? c) eqn:E2.
+      + simpl. repeat split; auto.
+      + destruct (find_mod_cases c ms) as [Hd|[_ Hd]]; [rewrite Hd; repeat split; auto|].
+        rewrite Hd, Z.eqb_refl in E2. discriminate.
+    - repeat split; auto. }
+  constructor.
+  - intros t c' Hin. destruct (R1 t c' Hin) as (A1 & A2 & A3). destruct (Hfind c') as (F1 & F2 & F3 & _).
+    rewrite F1, F2, F3. auto.
+  - exact R2.
+  - intros m' Hin Hall. apply In_upd_mod in Hin. destruct Hin as [Hin|(m & Hin & _ & ->)]; auto; apply (R3 m Hin Hall).
+  - intros c' Hin Hreg. destruct (Hfind c') as (F1 & F2 & _ & F4 & F5). rewrite F1 in Hreg.
+    destruct (R4 c' Hin Hreg) as (A2 & A3 & A4). rewrite F2, F4. auto.
+  - exact R5.
+  - intros m' Hin Hr. apply In_upd_mod in Hin. destruct Hin as [Hin|(m & Hin & _ & ->)]; auto; apply (R6 m Hin Hr).
+  - intros m' Hin. apply In_upd_mod in Hin. destruct Hin as [Hin|(m & Hin & _ & ->)]; auto; apply (R7 m Hin).
+  - intros m' Hin Hr Hcn. apply In_upd_mod in Hin. destruct Hin as [Hin|(m & Hin & Hmc & ->)]; auto.
+    simpl in *. rewrite <- Hmc in Hopen. rewrite (In_find_mod_nodup m ms Hin R10) in Hopen. auto.
+  - intros m' Hin Hr Hcl. apply In_upd_mod in Hin. destruct Hin as [Hin|(m & Hin & _ & ->)]; auto; apply (R9 m Hin Hr Hcl).
+  - rewrite map_conn_upd; auto.
+  - intros m' Hin. apply In_upd_mod in Hin. destruct Hin as [Hin|(m & Hin & _ & ->)]; auto; apply (R11 m Hin).
+  - intros c' Hin. destruct (R12 c' Hin) as [A1 A2]. destruct (Hfind c') as (F1 & F2 & _). rewrite F1, F2. auto.
+  - exact R13.
+  - exact R14.
+Qed.
